@@ -119,6 +119,11 @@ class ModelMixin2:
             if d.exact:
                 return IterSpec(len(d.items), len(d.items), [k for k, _ in d.items], None, 'dict')
             return IterSpec(0, None, None, lambda s, k: [(Unknown('dict key'), s)], 'dict')
+        if isinstance(v, Ref) and v.kind == 'list' and st.get(v.sym).kind == 'repeat':
+            rep = st.get(v.sym).items[0]
+            return IterSpec(2, None, None, lambda s, k, rep=rep: [(rep, s)], 'itertools.repeat', ordered=True)
+        if isinstance(v, Ref) and v.kind == 'list' and st.get(v.sym).kind == 'count':
+            return IterSpec(2, None, None, lambda s, k: [(NumV(('count',)), s)], 'itertools.count', ordered=True)
         if isinstance(v, Ref) and v.kind == 'list':
             return self.list_spec(v, st, node)
         if isinstance(v, IterV):
@@ -159,8 +164,6 @@ class ModelMixin2:
                     n = min(len(sp.exact) for sp in specs)
                     return IterSpec(n, n, [TupleV(tuple(sp.exact[i] for sp in specs)) for i in range(n)], None, 'zip')
                 return IterSpec(lo, hi, None, make, 'zip')
-        if isinstance(v, Ref) and v.kind == 'list' and st.get(v.sym).kind == 'count':
-            return IterSpec(2, None, None, lambda s, k: [(NumV(('count',)), s)], 'itertools.count', ordered=True)
         if isinstance(v, ExtV) and v.name in ('result:itertools.count', 'result:itertools.cycle', 'result:itertools.repeat'):
             # an endless supplier: it never ends a zip(); the numbers themselves are opaque
             return IterSpec(2, None, None, lambda s, k: [(NumV(('count',)), s)], v.name[len('result:'):], ordered=True)
@@ -624,6 +627,8 @@ class ModelMixin2:
         names = [n.id for g in gens for n in ast.walk(g.target) if isinstance(n, ast.Name)]
         saved = {n: st.frame.env[n] for n in names if n in st.frame.env}
         saved_comp = {k: st.frame.env[k] for k in ('%comp', '%compsrc') if k in st.frame.env}
+        for k, v in saved_comp.items():
+            st.frame.env[f'%sv{id(e)}{k}'] = v       # an enclosing comprehension's collected elements stay reachable (GC) meanwhile
         st.frame.env['%comp'] = TupleV(())
         st.frame.env.pop('%compsrc', None)
         base_mark = st.serial
@@ -631,7 +636,14 @@ class ModelMixin2:
         def elt_eval(s):
             if kind == 'dict':
                 return [((TupleV(kv) if not isinstance(kv, Raise) else kv), s2) for kv, s2 in self.ev_all([e.key, e.value], s)]
-            return self.ev(e.elt, s)
+            outs = []
+            for v, s2 in self.ev(e.elt, s):
+                if isinstance(v, IterV):
+                    # an element that is itself a lazy zip()/enumerate() object is materialised: list templates can be cloned, iterators cannot
+                    outs.extend(self.builtin('list', [v], {}, s2, e.elt))
+                else:
+                    outs.append((v, s2))
+            return outs
 
         first = self.ev(gens[0].iter, st)
         exact_done = []
@@ -730,7 +742,9 @@ class ModelMixin2:
             for n in names:
                 s.frame.env.pop(n, None)
             s.frame.env.update(saved)
-            s.frame.env.update(saved_comp)
+            for k in list(saved_comp):
+                kept = s.frame.env.pop(f'%sv{id(e)}{k}', None)
+                s.frame.env[k] = kept if kept is not None else saved_comp[k]
             if ctl != 'next':
                 final.append((Raise(ctl[1]), s))
                 continue
@@ -811,7 +825,9 @@ class ModelMixin2:
             for n in names:
                 s.frame.env.pop(n, None)
             s.frame.env.update(saved)
-            s.frame.env.update(saved_comp)
+            for k in list(saved_comp):
+                kept = s.frame.env.pop(f'%sv{id(e)}{k}', None)
+                s.frame.env[k] = kept if kept is not None else saved_comp[k]
         return out
 
     def _elem_mark(self, elem, st: State) -> int:
